@@ -28,6 +28,12 @@ namespace tool_geodsolve {
 using namespace GeographicLib; using namespace gv;
 typedef long double LD;
 
+// details are printed on one protocol line: keep them printable and free of the "::" field separator
+static void badx(const std::string& rel, std::string det) {
+  for (size_t i = 0; i + 1 < det.size(); ++i) if (det[i] == ':' && det[i + 1] == ':') det[i + 1] = '.';
+  for (auto& c : det) if ((unsigned char)c < 32 || (unsigned char)c > 126) c = '?';
+  gv::bad(rel, det);
+}
 static std::string fl2s(DMS::flag f) { return std::to_string(int(f)); }
 
 // ---------------------------------------------------------------------------------------------------------
@@ -93,20 +99,23 @@ static void op_enc(const Args& a) {
   int ind = std::atoi(a[3].c_str()); char sep = char(std::atoi(a[4].c_str()));
   std::string s;
   std::string e = guarded([&] { s = DMS::Encode(x, DMS::component(t), p, DMS::flag(ind), sep); });
-  if (!e.empty()) { emit(e); bad("encode-throws", "DMS::Encode threw " + e); return; }
+  if (!e.empty()) { emit(e); badx("encode-throws", "DMS::Encode threw " + e); return; }
   emit(hs(s));
   if (!(sep == 0 || sep == ':') || ind == DMS::NUMBER) return;
   // ---- closure: the parser accepts the string and returns the value
   DMS::flag f2 = DMS::NONE; double v = 0;
   e = guarded([&] { v = DMS::Decode(s, f2); });
-  if (!e.empty()) { bad("encode-decode-closure", "Decode rejects the encoder output '" + s + "' (" + e + ")"); return; }
+  if (!e.empty()) { badx("encode-decode-closure", "Decode rejects the encoder output '" + s + "' (" + e + ")"); return; }
   if (!std::isfinite(x)) {
-    if (!((std::isnan(x) && std::isnan(v)) || x == v)) bad("encode-decode-closure", "non-finite " + hx(x) + " -> '" + s + "' -> " + hx(v));
+    if (!((std::isnan(x) && std::isnan(v)) || x == v)) badx("encode-decode-closure", "non-finite " + hx(x) + " -> '" + s + "' -> " + hx(v));
     return;
   }
   DMS::flag want = ind == DMS::LATITUDE ? DMS::LATITUDE : (ind == DMS::LONGITUDE ? DMS::LONGITUDE : DMS::NONE);
-  if (f2 != want) bad("encode-decode-hemisphere", "'" + s + "' decodes with flag " + fl2s(f2) + ", expected " + fl2s(want));
-  unsigned pe = eff_prec(t, p);
+  if (f2 != want) badx("encode-decode-hemisphere", "'" + s + "' decodes with flag " + fl2s(f2) + ", expected " + fl2s(want));
+  // number of decimals actually printed (the implementation may clamp the requested precision to what binary64 resolves:
+  // at least min(prec, 15 - 2*trailing) decimals, never more than requested)
+  unsigned pe = 0; { size_t dot = s.find('.'); if (dot != std::string::npos) { size_t q = dot + 1; while (q < s.size() && s[q] >= '0' && s[q] <= '9') ++q; pe = unsigned(q - dot - 1); } }
+  if (pe > p || pe < eff_prec(t, p)) badx("encode-shape", "'" + s + "': " + std::to_string(pe) + " decimals printed for requested precision " + std::to_string(p));
   LD scale = t == 1 ? 60.0L : (t == 2 ? 3600.0L : 1.0L);
   LD unit = std::pow(10.0L, -LD(pe)) / scale;
   LD target = x;
@@ -121,40 +130,40 @@ static void op_enc(const Args& a) {
     bool longint = std::fabs(target) >= 9007199254740992.0L && std::fabs(dv) <= LD(nd) * LD(ulp(double(std::fabs(target))));
     char buf[260]; std::snprintf(buf, sizeof buf, "x=%.17g '%.40s%s' decodes to %.17g: off by %.3Lg (%.1Lf ulp) > tol %.3Lg", x, s.c_str(), s.size() > 40 ? "..." : "", v, dv,
                                  dv / LD(ulp(double(std::fabs(target)))), tol);
-    bad(longint ? "decode-long-integer-roundoff" : "encode-decode-roundtrip", buf);
+    badx(longint ? "decode-long-integer-roundoff" : "encode-decode-roundtrip", buf);
   }
   if (ind != DMS::AZIMUTH && std::signbit(v) != std::signbit(x))
-    bad("encode-decode-sign", "sign lost: x=" + hx(x) + " '" + s + "' -> " + hx(v));
+    badx("encode-decode-sign", "sign lost: x=" + hx(x) + " '" + s + "' -> " + hx(v));
   // ---- normalisation of the printed fields (independent parser)
   Fields f = split_fields(s, t, pe, ind, sep);
-  if (!f.ok) { bad("encode-shape", "'" + s + "': " + f.why); return; }
+  if (!f.ok) { badx("encode-shape", "'" + s + "': " + f.why); return; }
   LD D = ldval(f.d), M = ldval(f.m), S = ldval(f.s);
-  if (t >= 1 && !(M < 60)) bad("encode-normalised", "minutes field not below 60 in '" + s + "'");
-  if (t >= 2 && !(S < 60)) bad("encode-normalised", "seconds field not below 60 in '" + s + "'");
+  if (t >= 1 && !(M < 60)) badx("encode-normalised", "minutes field not below 60 in '" + s + "'");
+  if (t >= 2 && !(S < 60)) badx("encode-normalised", "seconds field not below 60 in '" + s + "'");
   LD V = D + M / 60 + S / 3600;
-  if (ind == DMS::AZIMUTH && !(V >= 0 && V <= 360)) bad("encode-azimuth-range", "azimuth '" + s + "' outside [0, 360]");
+  if (ind == DMS::AZIMUTH && !(V >= 0 && V <= 360)) badx("encode-azimuth-range", "azimuth '" + s + "' outside [0, 360]");
   LD sv = f.neg ? -V : V;
   LD dd = sv - target; if (ind == DMS::AZIMUTH) dd = std::remainder(dd, 360.0L);
   LD tol2 = 0.5L * unit * (1 + 1e-12L) + 2 * LD(ulp(double(std::fabs(target))));
   if (!(std::fabs(dd) <= tol2)) {
     char buf[200]; std::snprintf(buf, sizeof buf, "x=%.17g printed as '%s' = %.20Lg: off by %.3Lg > tol %.3Lg (carry?)", x, s.c_str(), sv, dd, tol2);
-    bad("encode-fields-value", buf);
+    badx("encode-fields-value", buf);
   }
   if ((ind == DMS::LATITUDE || ind == DMS::LONGITUDE || ind == DMS::NONE) && f.neg != std::signbit(x))
-    bad("encode-hemisphere", "sign/hemisphere of '" + s + "' does not match x=" + hx(x));
+    badx("encode-hemisphere", "sign/hemisphere of '" + s + "' does not match x=" + hx(x));
 }
 
 static void op_encp(const Args& a) {
   double x = unhx(a[0]); unsigned p = unsigned(std::strtoul(a[1].c_str(), nullptr, 10)); int ind = std::atoi(a[2].c_str()); char sep = char(std::atoi(a[3].c_str()));
   std::string s; std::string e = guarded([&] { s = DMS::Encode(x, p, DMS::flag(ind), sep); });
-  if (!e.empty()) { emit(e); bad("encode-throws", e); return; }
+  if (!e.empty()) { emit(e); badx("encode-throws", e); return; }
   emit(hs(s));
 }
 
 static std::string dec_res(const std::string& s, double& v, DMS::flag& f) {
   v = 0; f = DMS::NONE;
   std::string e = guarded([&] { v = DMS::Decode(s, f); });
-  if (!e.empty() && e != "!E") bad("foreign-exception", "DMS::Decode threw " + e + " instead of GeographicErr");
+  if (!e.empty() && e != "!E") badx("foreign-exception", "DMS::Decode threw " + e + " instead of GeographicErr");
   return e;
 }
 
@@ -169,95 +178,95 @@ static void op_dec(const Args& a) {
 static void op_decform(const Args& a) {
   std::string s = unhs(a[0]); double want = unhx(a[1]); int wf = std::atoi(a[2].c_str()); double scale = unhx(a[3]);
   double v; DMS::flag f; std::string e = dec_res(s, v, f);
-  if (!e.empty()) { emit(e); if (wf != 9) bad("documented-form-rejected", "'" + s + "' is a documented input form but was rejected"); return; }
+  if (!e.empty()) { emit(e); if (wf != 9) badx("documented-form-rejected", "'" + s + "' is a documented input form but was rejected"); return; }
   emit(hx(v) + " " + fl2s(f));
-  if (wf == 9) { bad("malformed-accepted", "'" + s + "' is malformed but decodes to " + hx(v)); return; }
-  if (int(f) != wf) bad("documented-form-flag", "'" + s + "' flag " + fl2s(f) + " expected " + std::to_string(wf));
+  if (wf == 9) { badx("malformed-accepted", "'" + s + "' is malformed but decodes to " + hx(v)); return; }
+  if (int(f) != wf) badx("documented-form-flag", "'" + s + "' flag " + fl2s(f) + " expected " + std::to_string(wf));
   double tol = 4 * ulp(scale);
   if (!(std::fabs(v - want) <= tol)) {
     char buf[160]; std::snprintf(buf, sizeof buf, "decodes to %.17g, documented meaning %.17g", v, want);
-    bad("documented-form-value", "'" + s + "' " + buf);
+    badx("documented-form-value", "'" + s + "' " + buf);
   }
 }
 
 static void op_decang(const Args& a) {
   std::string s = unhs(a[0]); double v = 0;
   std::string e = guarded([&] { v = DMS::DecodeAngle(s); });
-  if (!e.empty()) { emit(e); if (e != "!E") bad("foreign-exception", e); return; }
+  if (!e.empty()) { emit(e); if (e != "!E") badx("foreign-exception", e); return; }
   emit(hx(v));
 }
 static void op_decazi(const Args& a) {
   std::string s = unhs(a[0]); double v = 0;
   std::string e = guarded([&] { v = DMS::DecodeAzimuth(s); });
-  if (!e.empty()) { emit(e); if (e != "!E") bad("foreign-exception", e); return; }
+  if (!e.empty()) { emit(e); if (e != "!E") badx("foreign-exception", e); return; }
   emit(hx(v));
-  if (!std::isnan(v) && !(v >= -180 && v <= 180)) bad("azimuth-range", "DecodeAzimuth('" + s + "') = " + hx(v) + " outside [-180, 180]");
+  if (!std::isnan(v) && !(v >= -180 && v <= 180)) badx("azimuth-range", "DecodeAzimuth('" + s + "') = " + hx(v) + " outside [-180, 180]");
 }
 static void op_declatlon(const Args& a) {
   std::string sa = unhs(a[0]), sb = unhs(a[1]); bool lf = a[2] == "1";
   double lat = 1234.5, lon = 1234.5;
   std::string e = guarded([&] { DMS::DecodeLatLon(sa, sb, lat, lon, lf); });
   if (!e.empty()) {
-    emit(e); if (e != "!E") bad("foreign-exception", e);
-    if (lat != 1234.5 || lon != 1234.5) bad("output-modified-on-throw", "DecodeLatLon threw but changed lat/lon");
+    emit(e); if (e != "!E") badx("foreign-exception", e);
+    if (lat != 1234.5 || lon != 1234.5) badx("output-modified-on-throw", "DecodeLatLon threw but changed lat/lon");
     return;
   }
   emit(hx(lat) + " " + hx(lon));
-  if (!std::isnan(lat) && !(std::fabs(lat) <= 90)) bad("latitude-range", "DecodeLatLon accepted latitude " + hx(lat));
+  if (!std::isnan(lat) && !(std::fabs(lat) <= 90)) badx("latitude-range", "DecodeLatLon accepted latitude " + hx(lat));
   // either coordinate order when both carry hemisphere letters
   double va, vb; DMS::flag fa, fb;
   if (guarded([&] { va = DMS::Decode(sa, fa); vb = DMS::Decode(sb, fb); }).empty() && fa != DMS::NONE && fb != DMS::NONE) {
     double lat2 = 0, lon2 = 0;
     std::string e2 = guarded([&] { DMS::DecodeLatLon(sb, sa, lat2, lon2, lf); });
-    if (!e2.empty() || bits(lat2) != bits(lat) || bits(lon2) != bits(lon)) bad("coordinate-order", "swapping two hemisphere-tagged coordinates changes the result");
+    if (!e2.empty() || bits(lat2) != bits(lat) || bits(lon2) != bits(lon)) badx("coordinate-order", "swapping two hemisphere-tagged coordinates changes the result");
   }
 }
 
 static void op_str(const Args& a) {
   double x = unhx(a[0]); int p = std::atoi(a[1].c_str());
   std::string s; std::string e = guarded([&] { s = Utility::str(x, p); });
-  if (!e.empty()) { emit(e); bad("str-throws", e); return; }
+  if (!e.empty()) { emit(e); badx("str-throws", e); return; }
   emit(hs(s));
 }
 static void op_strval(const Args& a) {
   double x = unhx(a[0]); int p = std::atoi(a[1].c_str());
   std::string s; double v = 0;
   std::string e = guarded([&] { s = Utility::str(x, p); v = Utility::val<double>(s); });
-  if (!e.empty()) { emit(e); bad("str-val-closure", "Utility::val rejects Utility::str output '" + s + "' (" + e + ")"); return; }
+  if (!e.empty()) { emit(e); badx("str-val-closure", "Utility::val rejects Utility::str output '" + s + "' (" + e + ")"); return; }
   emit("ok");
-  if (std::isnan(x)) { if (!std::isnan(v)) bad("str-val-roundtrip", "nan -> '" + s + "' -> " + hx(v)); return; }
-  if (std::isinf(x)) { if (v != x) bad("str-val-roundtrip", "inf -> '" + s + "' -> " + hx(v)); return; }
+  if (std::isnan(x)) { if (!std::isnan(v)) badx("str-val-roundtrip", "nan -> '" + s + "' -> " + hx(v)); return; }
+  if (std::isinf(x)) { if (v != x) badx("str-val-roundtrip", "inf -> '" + s + "' -> " + hx(v)); return; }
   LD tol = 0.5L * std::pow(10.0L, -LD(p)) * (1 + 1e-12L) + 2 * LD(ulp(x));
   if (!(std::fabs(LD(v) - LD(x)) <= tol)) {
     char buf[160]; std::snprintf(buf, sizeof buf, "x=%.17g -> '%s' -> %.17g", x, s.c_str(), v);
-    bad("str-val-roundtrip", buf);
+    badx("str-val-roundtrip", buf);
   }
-  if (v != 0 && std::signbit(v) != std::signbit(x)) bad("str-val-sign", "sign changed: " + hx(x) + " -> '" + s + "'");
+  if (v != 0 && std::signbit(v) != std::signbit(x)) badx("str-val-sign", "sign changed: " + hx(x) + " -> '" + s + "'");
 }
 static void op_val(const Args& a) {
   std::string s = unhs(a[0]); double v = 0;
   std::string e = guarded([&] { v = Utility::val<double>(s); });
-  if (!e.empty()) { emit(e); if (e != "!E") bad("foreign-exception", e); return; }
+  if (!e.empty()) { emit(e); if (e != "!E") badx("foreign-exception", e); return; }
   emit(hx(v));
 }
 static void op_fract(const Args& a) {
   std::string s = unhs(a[0]); double v = 0;
   std::string e = guarded([&] { v = Utility::fract<double>(s); });
-  if (!e.empty()) { emit(e); if (e != "!E") bad("foreign-exception", e); return; }
+  if (!e.empty()) { emit(e); if (e != "!E") badx("foreign-exception", e); return; }
   emit(hx(v));
 }
 static void op_nummatch(const Args& a) {
   std::string s = unhs(a[0]); double v = 0;
   std::string e = guarded([&] { v = Utility::nummatch<double>(s); });
-  if (!e.empty()) { emit(e); bad("foreign-exception", e); return; }
+  if (!e.empty()) { emit(e); badx("foreign-exception", e); return; }
   emit(hx(v));
 }
 static void op_lookup(const Args& a) {
   std::string t = unhs(a[0]); int c = std::atoi(a[1].c_str());
   int k = Utility::lookup(t.c_str(), char(c));
   emit(std::to_string(k));
-  if (c == 0 && k >= 0) bad("lookup-nul", "Utility::lookup(\"" + t + "\", NUL) = " + std::to_string(k) + " (matches the terminator)");
-  if (k >= 0 && (k >= int(t.size()) || std::toupper((unsigned char)c) != (unsigned char)t[k])) bad("lookup-index", "wrong index");
+  if (c == 0 && k >= 0) badx("lookup-nul", "Utility::lookup(\"" + t + "\", NUL) = " + std::to_string(k) + " (matches the terminator)");
+  if (k >= 0 && (k >= int(t.size()) || std::toupper((unsigned char)c) != (unsigned char)t[k])) badx("lookup-index", "wrong index");
 }
 
 // ---- GeoCoords ---------------------------------------------------------------------------------------------
@@ -276,7 +285,7 @@ static void op_dmsrep(const Args& a) {
 static void op_utmstr(const Args& a) {
   int z = std::atoi(a[0].c_str()); bool np = a[1] == "1"; double x = unhx(a[2]), y = unhx(a[3]); int p = std::atoi(a[4].c_str()); bool ab = a[5] == "1";
   std::string s; std::string e = guarded([&] { GeoCoords::UTMUPSString(z, np, x, y, p, ab, s); });
-  if (!e.empty()) { emit(e); if (e != "!E") bad("foreign-exception", e); return; }
+  if (!e.empty()) { emit(e); if (e != "!E") badx("foreign-exception", e); return; }
   emit(hs(s));
 }
 // geocoords lat lon prec longfirst : the four representations parsed back give the same position / zone / hemisphere
@@ -284,7 +293,7 @@ static void op_geocoords(const Args& a) {
   double lat = unhx(a[0]), lon = unhx(a[1]); int p = std::atoi(a[2].c_str()); bool lf = a[3] == "1";
   GeoCoords g;
   std::string e = guarded([&] { g.Reset(lat, lon); });
-  if (!e.empty()) { emit(e); if (e != "!E") bad("foreign-exception", e); return; }
+  if (!e.empty()) { emit(e); if (e != "!E") badx("foreign-exception", e); return; }
   emit("ok");
   char buf[300];
   double lonn = Math::AngNormalize(lon);
@@ -294,10 +303,10 @@ static void op_geocoords(const Args& a) {
     std::string e2 = guarded([&] { s = g.GeoRepresentation(p, lf); h.Reset(s, true, lf); });
     int pe = std::max(0, std::min(9, p) + 5);
     double tol = 0.5 * std::pow(10.0, -pe) * (1 + 1e-9) + 4 * ulp(180.0);
-    if (!e2.empty()) bad("geocoords-closure", "GeoRepresentation '" + s + "' not accepted by GeoCoords (" + e2 + ")");
+    if (!e2.empty()) badx("geocoords-closure", "GeoRepresentation '" + s + "' not accepted by GeoCoords (" + e2 + ")");
     else if (!(std::fabs(h.Latitude() - lat) <= tol) || !(std::fabs(std::remainder(h.Longitude() - lonn, 360.0)) <= tol)) {
       std::snprintf(buf, sizeof buf, "'%s' parses to (%.17g, %.17g), position was (%.17g, %.17g)", s.c_str(), h.Latitude(), h.Longitude(), lat, lonn);
-      bad("geocoords-geo-roundtrip", buf);
+      badx("geocoords-geo-roundtrip", buf);
     }
   }
   // DMS (both separators)
@@ -308,10 +317,10 @@ static void op_geocoords(const Args& a) {
     // prec digits: <2 degrees, <4 minutes, else seconds
     double unit = pe < 2 ? std::pow(10.0, -pe) : (pe < 4 ? std::pow(10.0, -(pe - 2)) / 60 : std::pow(10.0, -(pe - 4)) / 3600);
     double tol = 0.5 * unit * (1 + 1e-9) + 4 * ulp(180.0);
-    if (!e2.empty()) bad("geocoords-closure", "DMSRepresentation '" + s + "' not accepted by GeoCoords (" + e2 + ")");
+    if (!e2.empty()) badx("geocoords-closure", "DMSRepresentation '" + s + "' not accepted by GeoCoords (" + e2 + ")");
     else if (!(std::fabs(h.Latitude() - lat) <= tol) || !(std::fabs(std::remainder(h.Longitude() - lonn, 360.0)) <= tol)) {
       std::snprintf(buf, sizeof buf, "'%s' parses to (%.17g, %.17g), position was (%.17g, %.17g)", s.c_str(), h.Latitude(), h.Longitude(), lat, lonn);
-      bad("geocoords-dms-roundtrip", buf);
+      badx("geocoords-dms-roundtrip", buf);
     }
     // hemisphere letters allow either order
     size_t sp = s.find(' ');
@@ -319,7 +328,7 @@ static void op_geocoords(const Args& a) {
       GeoCoords k; std::string sw = s.substr(sp + 1) + " " + s.substr(0, sp);
       std::string e3 = guarded([&] { k.Reset(sw, true, lf); });
       if (!e3.empty() || bits(k.Latitude()) != bits(h.Latitude()) || bits(k.Longitude()) != bits(h.Longitude()))
-        bad("coordinate-order", "'" + sw + "' (swapped) does not give the same position as '" + s + "'");
+        badx("coordinate-order", "'" + sw + "' (swapped) does not give the same position as '" + s + "'");
     }
   }
   // UTM/UPS
@@ -328,17 +337,17 @@ static void op_geocoords(const Args& a) {
     std::string e2 = guarded([&] { s = g.UTMUPSRepresentation(p, ab != 0); h.Reset(s, true, lf); });
     int pe = std::max(-5, std::min(9, p));
     double tol = 0.5 * std::pow(10.0, -pe) * (1 + 1e-9) + 4 * ulp(1e7);
-    if (!e2.empty()) bad("geocoords-closure", "UTMUPSRepresentation '" + s + "' not accepted by GeoCoords (" + e2 + ")");
+    if (!e2.empty()) badx("geocoords-closure", "UTMUPSRepresentation '" + s + "' not accepted by GeoCoords (" + e2 + ")");
     else {
-      if (h.Zone() != g.Zone()) bad("geocoords-utm-zone", "'" + s + "' parses to zone " + std::to_string(h.Zone()) + ", was " + std::to_string(g.Zone()));
+      if (h.Zone() != g.Zone()) badx("geocoords-utm-zone", "'" + s + "' parses to zone " + std::to_string(h.Zone()) + ", was " + std::to_string(g.Zone()));
       // the hemisphere may legitimately flip only if the parsed position is on the equator side of the rounding
       bool hem_ok = h.Northp() == g.Northp() || std::fabs(h.Latitude()) * 111e3 <= tol * 2;
-      if (!hem_ok) bad("geocoords-utm-hemisphere", "'" + s + "' parses to the other hemisphere");
+      if (!hem_ok) badx("geocoords-utm-hemisphere", "'" + s + "' parses to the other hemisphere");
       double dn = h.Northing() - g.Northing();
       if (h.Northp() != g.Northp()) dn += (h.Northp() ? -1 : 1) * 1e7;
       if (!(std::fabs(h.Easting() - g.Easting()) <= tol) || !(std::fabs(dn) <= tol)) {
         std::snprintf(buf, sizeof buf, "'%s' parses to (%.17g, %.17g), was (%.17g, %.17g)", s.c_str(), h.Easting(), h.Northing(), g.Easting(), g.Northing());
-        bad("geocoords-utm-roundtrip", buf);
+        badx("geocoords-utm-roundtrip", buf);
       }
     }
     // "easting northing zone" order is documented as well
@@ -347,7 +356,7 @@ static void op_geocoords(const Args& a) {
       GeoCoords k; std::string sw = x + " " + y + " " + z;
       std::string e3 = guarded([&] { k.Reset(sw, true, lf); });
       if (!e3.empty() || k.Zone() != h.Zone() || k.Northp() != h.Northp() || bits(k.Easting()) != bits(h.Easting()) || bits(k.Northing()) != bits(h.Northing()))
-        bad("coordinate-order", "'" + sw + "' (zone last) does not give the same position as '" + s + "'");
+        badx("coordinate-order", "'" + sw + "' (zone last) does not give the same position as '" + s + "'");
     }
   }
   // MGRS
@@ -357,19 +366,19 @@ static void op_geocoords(const Args& a) {
     if (e1.empty() && !s.empty() && s != "INVALID") {
       std::string e2 = guarded([&] { h.Reset(s, true, lf); });
       int pe = std::max(-1, std::min(6, p) + 5);
-      if (!e2.empty()) bad("geocoords-closure", "MGRSRepresentation '" + s + "' not accepted by GeoCoords (" + e2 + ")");
+      if (!e2.empty()) badx("geocoords-closure", "MGRSRepresentation '" + s + "' not accepted by GeoCoords (" + e2 + ")");
       else if (pe >= 0) {
         double sq = std::pow(10.0, 5 - pe), tol = 0.5 * sq * (1 + 1e-9) + 1e-6;
-        if (h.Zone() != g.Zone()) bad("geocoords-mgrs-zone", "'" + s + "' parses to zone " + std::to_string(h.Zone()) + ", was " + std::to_string(g.Zone()));
-        if (h.Northp() != g.Northp() && !(std::fabs(g.Latitude()) * 111e3 <= sq)) bad("geocoords-mgrs-hemisphere", "'" + s + "' parses to the other hemisphere");
+        if (h.Zone() != g.Zone()) badx("geocoords-mgrs-zone", "'" + s + "' parses to zone " + std::to_string(h.Zone()) + ", was " + std::to_string(g.Zone()));
+        if (h.Northp() != g.Northp() && !(std::fabs(g.Latitude()) * 111e3 <= sq)) badx("geocoords-mgrs-hemisphere", "'" + s + "' parses to the other hemisphere");
         double dn = h.Northing() - g.Northing();
         if (h.Northp() != g.Northp()) dn += (h.Northp() ? -1 : 1) * 1e7;
         if (!(std::fabs(h.Easting() - g.Easting()) <= tol) || !(std::fabs(dn) <= tol)) {
           std::snprintf(buf, sizeof buf, "'%s' parses to (%.17g, %.17g), was (%.17g, %.17g)", s.c_str(), h.Easting(), h.Northing(), g.Easting(), g.Northing());
-          bad("geocoords-mgrs-roundtrip", buf);
+          badx("geocoords-mgrs-roundtrip", buf);
         }
       }
-    } else if (!e1.empty() && e1 != "!E") bad("foreign-exception", e1);
+    } else if (!e1.empty() && e1 != "!E") badx("foreign-exception", e1);
   }
 }
 
@@ -394,7 +403,7 @@ static int run_tool(const std::string& name, int variant, const std::string& inp
   } catch (const std::exception& e) { ex = typeid(e).name(); } catch (...) { ex = "unknown"; }
   std::cin.rdbuf(oi); std::cout.rdbuf(oo); std::cerr.rdbuf(oe); std::cin.clear(); std::cout.clear(); std::cerr.clear();
   output = out.str();
-  if (!ex.empty()) { bad("tool-exception-escapes", name + ": exception " + ex + " escaped main"); return -98; }
+  if (!ex.empty()) { badx("tool-exception-escapes", name + ": exception " + ex + " escaped main"); return -98; }
   return rc;
 }
 static std::vector<std::string> split_lines(const std::string& s) {
@@ -411,12 +420,12 @@ static void op_tool(const Args& a) {
   int nerr = 0; for (auto& l : out) if (l.compare(0, 5, "ERROR") == 0) ++nerr;
   emit(std::to_string(in.size()) + " " + std::to_string(out.size()) + " " + std::to_string(nerr) + " " + std::to_string(rc));
   if (rc < -90) return;
-  if (in.size() != out.size() || !endnl) { bad("tool-line-count", name + ": " + std::to_string(in.size()) + " input lines, " + std::to_string(out.size()) + " output lines"); return; }
-  if ((nerr > 0) != (rc != 0)) bad("tool-exit-status", name + ": " + std::to_string(nerr) + " ERROR lines, exit status " + std::to_string(rc));
+  if (in.size() != out.size() || !endnl) { badx("tool-line-count", name + ": " + std::to_string(in.size()) + " input lines, " + std::to_string(out.size()) + " output lines"); return; }
+  if ((nerr > 0) != (rc != 0)) badx("tool-exit-status", name + ": " + std::to_string(nerr) + " ERROR lines, exit status " + std::to_string(rc));
   for (size_t i = 0; i < in.size() && i < tags.size(); ++i) {
     bool iserr = out[i].compare(0, 5, "ERROR") == 0;
-    if (tags[i] == '1' && iserr) bad("tool-valid-line-rejected", name + ": valid line '" + in[i] + "' -> '" + out[i] + "'");
-    if (tags[i] == '0' && !iserr) bad("tool-bad-line-not-marked", name + ": malformed line " + hs(in[i]) + " -> '" + out[i] + "'");
+    if (tags[i] == '1' && iserr) badx("tool-valid-line-rejected", name + ": valid line '" + in[i] + "' -> '" + out[i] + "'");
+    if (tags[i] == '0' && !iserr) badx("tool-bad-line-not-marked", name + ": malformed line " + hs(in[i]) + " -> '" + out[i] + "'");
   }
   // closure at tool level: GeoConvert's own output lines are valid GeoConvert input (same position up to the printed precision)
   if (name == "geoconvert" && nerr < int(out.size())) {
@@ -429,7 +438,7 @@ static void op_tool(const Args& a) {
       auto o2 = split_lines(out2);
       if (rc2 != 0 || o2.size() != n2) {
         std::string w; for (auto& l : o2) if (l.compare(0, 5, "ERROR") == 0) { w = l; break; }
-        bad("tool-output-reparse", name + ": an output line is not accepted as input (" + w + ")");
+        badx("tool-output-reparse", name + ": an output line is not accepted as input (" + w + ")");
       }
     }
   }
@@ -537,12 +546,15 @@ static const std::vector<std::string> MALFORMED = {
   "", " ", "N", "-", "+", "--20", "+-3", "20-", "N20S", "N20N", "E20W", "20NE", "d", "'", "\"", ":", "1:2:3:4", "1:2:3:4:5", "1d2'3\":4", "1d2'3\"4", "4d5d", "4'5'", "4\"5\"",
   "4'5d", "4\"5'", "4d60'", "4d0'60\"", "4d61", "4d5'61", "1..2", "1.2.3", ".", "d5", "4d'", "4d5'\"", "12x", "0x10", "1e5", "4 5", "4d 5 x", "4,5", "nand", "infx", "1.#INFx",
   "12\xc2", "\xe2\x80", "4\xe2\x80\xb2\xe2\x80\xb2\xe2\x80\xb2" "5", "1d2.5'3\"", "4.5d3'", "4.5:3", "S-N3", "3N-", "1+", "1+N2"};
-static const std::vector<std::vector<std::string>> LEGAL_CLASSES = {
-  {"-20.51125", "20d30'40.5\"S", "-20\xc2\xb0" "30'40.5", "-20d30.675", "N-20d30'40.5\"", "-20:30:40.5"},
-  {"4d0'9", "4d9\"", "4d9''", "4:0:9", "004:00:09", "4.0025", "4.0025d", "4d0.15", "04:.15"},
-  {"4:59.99999999999999", "4:60.0", "4:59:59.9999999999999", "4:59:60.0", "5"},
-  {"-070:00:45", "70:01:15W+0:0.5", "70:01:15W-0:0:30W", "W70:01:15+0:0:30E"},
-  {"7.0E+1", "8.0E"}, {"S3-2.5+4.1N", "-1.4N"}, {"33d10", "33d10'"}, {"5.5'", "0:5.5"}, {"50d30'10.3\"", "50:30:10.3"}};
+struct LegalClass { double value; std::vector<std::string> forms; };
+// the LEGAL lines of DMS.hpp (all entries of a line are documented as equivalent) with the value they denote
+static const std::vector<LegalClass> LEGAL_CLASSES = {
+  {-20.51125, {"-20.51125", "20d30'40.5\"S", "-20\xc2\xb0" "30'40.5", "-20d30.675", "N-20d30'40.5\"", "-20:30:40.5"}},
+  {4.0025, {"4d0'9", "4d9\"", "4d9''", "4:0:9", "004:00:09", "4.0025", "4.0025d", "4d0.15", "04:.15"}},
+  {5, {"4:59.99999999999999", "4:60.0", "4:59:59.9999999999999", "4:59:60.0", "5"}},
+  {-70.0125, {"-070:00:45", "70:01:15W+0:0.5", "70:01:15W-0:0:30W", "W70:01:15+0:0:30E"}},
+  {8, {"7.0E+1", "8.0E"}}, {-1.4, {"S3-2.5+4.1N", "-1.4N"}}, {33 + 10 / 60.0, {"33d10", "33d10'"}}, {5.5 / 60, {"5.5'", "0:5.5"}},
+  {50 + 30 / 60.0 + 10.3 / 3600, {"50d30'10.3\"", "50:30:10.3"}}};
 
 static std::string mutate(Rng& r, std::string s) {
   static const std::string nasty = std::string("\0\0 \t-+.:d'\"DNSEWnsew0159eExX*`#/,", 34) + "\xc2\xb0\xe2\x80\xb2\xb3\x98\xa0\xff\x80\x81";
@@ -667,16 +679,15 @@ void gv::generate(const std::string& tier, uint64_t seed) {
   const int N = thorough ? 30 : 3;
   // ---- fixed documentation lists and the lookup tables (every run)
   for (auto& s : MALFORMED) { stratum("decode/documented-illegal"); run("decform", {hs(s), hx(0), "9", hx(1)}); }
-  for (auto& cl : LEGAL_CLASSES) {
-    double v0 = 0; DMS::flag f0 = DMS::NONE; bool have = false;
-    for (auto& s : cl) {
+  for (auto& cl : LEGAL_CLASSES)
+    for (auto& f : cl.forms) {
       stratum("decode/documented-legal");
-      double v = 0; DMS::flag f = DMS::NONE;
-      if (guarded([&] { v = DMS::Decode(s, f); }).empty()) { if (!have) { v0 = v; have = true; f0 = f; } }
-      (void)f0;   // entries of one class are equivalent in value; the hemisphere flag is the string's own
-      run("decform", {hs(s), hx(have ? v0 : 0), std::to_string(int(f)), hx(std::max(std::fabs(v0), 100.0))});
+      int fl = 0; char lastc = f.back(), firstc = f[0];
+      for (char c : {lastc, firstc}) { if (std::strchr("NSns", c)) fl = 1; if (std::strchr("EWew", c)) fl = 2; }
+      if (f.find("W+") != std::string::npos || f.find("W-") != std::string::npos) fl = 2;
+      if (f == "7.0E+1") fl = 2;
+      run("decform", {hs(f), hx(cl.value), std::to_string(fl), hx(std::max(std::fabs(cl.value), 100.0))});
     }
-  }
   // documented numeric meaning of the first entry of each class
   run("decform", {hs("-20.51125"), hx(-20.51125), "0", hx(20.51125)});
   run("decform", {hs("20d30'40.5\"S"), hx(-20.51125), "1", hx(20.51125)});
@@ -720,7 +731,7 @@ void gv::generate(const std::string& tier, uint64_t seed) {
     int k = r.irange(0, 3);
     if (k == 0) { std::string st; int t = r.irange(0, 2); base = DMS::Encode(enc_angle(r, t, 3, st), DMS::component(t), unsigned(r.irange(0, 6)), DMS::flag(r.irange(0, 3)), r.coin() ? ':' : char(0)); }
     else if (k == 1) base = gen_piece(r, true, -1).text;
-    else if (k == 2) base = r.pick(r.coin() ? MALFORMED : LEGAL_CLASSES[size_t(r.irange(0, int(LEGAL_CLASSES.size()) - 1))]);
+    else if (k == 2) base = r.coin() ? r.pick(MALFORMED) : r.pick(LEGAL_CLASSES[size_t(r.irange(0, int(LEGAL_CLASSES.size()) - 1))].forms);
     else { base = gen_piece(r, true, -1).text + gen_piece(r, false, 0).text; }
     std::string s = mutate(r, base);
     stratum("decode/mutation"); run("dec", {hs(s)});
